@@ -433,6 +433,12 @@ func ruleStrictInteger(w *World, r *Run, rule string) {
 						if b10 == "10" && b64 == "64" {
 							good = true
 						}
+						// … on the whole remainder of the line: a line cut to a fixed length before it is parsed ("old
+						// 100000000000000000000" read as 10^19) is partly understood
+						if anySub(pu.Args[0], func(x *Term) bool { return x.Kind == "slice" }) {
+							bad++
+							r.Fail(rule, fnParseBody+" | the size line is parsed whole", w.pos(pu.Pos), "the text handed to ParseUint is a slice of the line ("+short(pu.Args[0].String())+"): a size line longer than the cut is accepted for its prefix instead of being refused")
+						}
 					}
 				}
 			}
